@@ -251,6 +251,11 @@ func RecvTypeName(e ast.Expr) string {
 
 // SSAFunc resolves the ssa function of a declared function/method "Name" or "Recv.Name".
 func (p *Program) SSAFunc(rel, name string) *ssa.Function {
+	// a rule that anchors in a function of a package analyses that package (restructuring tolerance, report.go)
+	if p.Queried == nil {
+		p.Queried = map[string]bool{}
+	}
+	p.Queried[rel] = true
 	pk, fd := p.FindFunc(rel, name)
 	if fd == nil || p.SSA == nil {
 		return nil
